@@ -86,7 +86,11 @@ func (s *signer) AcmeAccount(endpoint, emails string, termsAgreed bool) {
 	if reflect.DeepEqual(s.account, account) {
 		return
 	}
+	// the account is remembered only together with its client: the same
+	// account is loaded again if it was removed, or replaced by another
+	// one that failed to load, in the meantime.
 	s.client = nil
+	s.account = Account{}
 	if endpoint == "" && emails == "" && !termsAgreed {
 		return
 	}
